@@ -101,17 +101,14 @@ func (c *Cache) Set(key string, value any) {
 // SetWithExpire 设置给定存活时长的键值对至缓存。
 func (c *Cache) SetWithExpire(key string, value any, expire time.Duration) {
 	c.lock.Lock()
-	_, ok := c.data[key]
 	c.data[key] = value
 	c.lruCache.add(key)
 	c.lock.Unlock()
 
+	// SetTimer 会移动已有的定时任务，也会为没有定时任务的键（此前的时长被时间轮拒绝）新建一个；
+	// MoveTimer 对后者什么也不做，条目就永不过期。
 	expiry := c.unstableExpiry.AroundDuration(expire)
-	if ok {
-		c.timingWheel.MoveTimer(key, expiry)
-	} else {
-		c.timingWheel.SetTimer(key, value, expiry)
-	}
+	c.timingWheel.SetTimer(key, value, expiry)
 }
 
 // Take 返回给定键的条目。
